@@ -392,6 +392,12 @@ pub fn gen_out_file(r: &mut Rng, w: &World) -> OutFile {
             ("strict_cost", json!("route.cost.total_cost")),
             ("label", json!({"optional": "request.label"})),
             ("label", json!({"optional": "request.label"})),
+            // column names are the user's: mixed case, leading underscore, digits (sorted = true sorts them byte-wise)
+            ("Orig", json!({"optional": "request.origin_vertex"})),
+            ("Time_s", json!({"optional": "route.traversal_summary.time"})),
+            ("Zone", json!({"optional": "request.tag0"})),
+            ("_qid", json!("request._qid")),
+            ("2nd_cost", json!({"optional": "route.cost.total_cost"})),
         ];
         let mut idx: Vec<usize> = (0..pool.len()).collect();
         r.shuffle(&mut idx);
